@@ -35,7 +35,13 @@ def parse_known_findings():
     p = os.path.join(VERIF, "KNOWN_FINDINGS.txt")
     if not os.path.exists(p):
         return open_, fixed
-    for line in open(p):
+    lines = list(open(p))
+    # development aid: proposed `finding:` lines that are not yet in KNOWN_FINDINGS.txt, read from the file named by the
+    # environment variable VERIF_EXTRA_FINDINGS (used only when the variable is set; `fixed:` lines there are ignored)
+    extra = os.environ.get("VERIF_EXTRA_FINDINGS")
+    if extra and os.path.exists(extra):
+        lines += [l for l in open(extra) if l.strip().startswith("finding:")]
+    for line in lines:
         line = line.strip()
         if not line or line.startswith("#"):
             continue
